@@ -422,3 +422,40 @@ Definition same_shape (r r' : row) : Prop :=
      | Some q, Some q' => (q < 0 <-> q' < 0)%Q
      | _, _ => False
      end.
+
+(* ---------------- what the code reports where it leaves the statement (recorded findings C10-F2, C10-F4) ---------------- *)
+
+(* what HourlyReportingData reports while the criteria class is not told that the data is reporting data:
+   the usage rules enter completeness and the count of valid days; the baseline-only checks are not run *)
+Definition violates_reporting_as_baseline (fr : frame) (n : dqname) : Prop :=
+  let rows := f_rows fr in
+  let span := span_of (complete fr) rows in
+  match n with
+  | NoData => forall r, In r rows -> complete fr r = false
+  | TooManyDaysMissingData => under90 (whole_days (fun r => usage_present r && temp_valid90 r) rows) span
+  | TooManyDaysMissingTemperature => under90 (whole_days temp_valid90 rows) span
+  | MissingMonthlyTemperature => some_month_under90 r_temp rows
+  | MissingMonthlyGhi => f_has_ghi fr = true /\ some_month_under90 r_ghi rows
+  | _ => False
+  end.
+
+(* daily / billing reporting data: the valid days count temperature only, the span is taken over the rows that also
+   have usage *)
+Definition violates_reporting_span_over_usage (f : family) (fr : frame) (n : dqname) : Prop :=
+  let rows := f_rows fr in
+  let span := span_of (complete fr) rows in
+  match n with
+  | NoData => forall r, In r rows -> complete fr r = false
+  | TooManyDaysMissingData => under90 (whole_days temp_valid90 rows) span
+  | TooManyDaysMissingTemperature => under90 (whole_days temp_valid90 rows) span
+  | MissingMonthlyTemperature => some_month_under90 r_temp rows
+  | MissingMonthlyGhi => f = Hourly /\ f_has_ghi fr = true /\ some_month_under90 r_ghi rows
+  | _ => False
+  end.
+
+
+(* the parameters of the statement with the two constructor flags as they are in the code today *)
+Definition as_coded : params :=
+  {| p_max_len := 365; p_min_len := 329; p_cov_num := 9; p_cov_den := 10; p_tcov_num := 9; p_tcov_den := 10;
+     p_baseline_seq := canonical_baseline; p_reporting_seq := canonical_reporting;
+     p_reporting_flag := fun f => match f with Hourly => false | _ => true end; p_offcycle_dq := true |}.
